@@ -4,6 +4,7 @@ import (
 	"bytes"
 	"fmt"
 	"math/rand"
+	"strings"
 	"sync"
 	"testing"
 	"time"
@@ -183,8 +184,12 @@ func c08Eth(rec *mon.Recorder, rng *rand.Rand, seed int64, nClaims int) {
 		}
 		worlds[i] = model.NewEthWorld(contract, cp, rng.Intn(20))
 	}
-	latest := heights[2] + uint64(rng.Intn(40))
 	nVals := 1 + rng.Intn(21)
+	latest := heights[2] + uint64(rng.Intn(40))
+	if rng.Intn(2) == 0 {
+		// the newest proven height sits exactly at, one before or one after the BSC confirmation bound floor(2n/3)+1
+		latest = heights[2] + uint64(2*nVals/3+1) + uint64(rng.Intn(3)) - 1
+	}
 	for _, typ := range []string{exported.ETH, exported.BSC} {
 		name := "ethlikechain"
 		ctx, _ := c.Ctx().CacheContext()
@@ -192,6 +197,12 @@ func c08Eth(rec *mon.Recorder, rng *rand.Rand, seed int64, nClaims int) {
 		var delay uint64
 		if typ == exported.ETH {
 			delay = uint64(rng.Intn(12))
+			if rng.Intn(2) == 0 {
+				// the configured delay sits at / around the distance of one of the proven heights
+				if d := int64(latest-heights[rng.Intn(3)]) + int64(rng.Intn(3)) - 1; d >= 0 {
+					delay = uint64(d)
+				}
+			}
 			cs = &ethtypes.ClientState{Header: ethtypes.Header{Height: clienttypes.NewHeight(0, latest)}, ChainId: 1, ContractAddress: contract[:], TrustingPeriod: 1 << 40, BlockDelay: delay}
 			for i, h := range heights {
 				hh := clienttypes.NewHeight(0, h)
@@ -204,7 +215,7 @@ func c08Eth(rec *mon.Recorder, rng *rand.Rand, seed int64, nClaims int) {
 				rng.Read(vals[i])
 			}
 			bcs := &bsctypes.ClientState{Header: bsctypes.Header{Height: clienttypes.NewHeight(0, latest)}, ChainId: 56, Epoch: 200, BlockInteval: 3, Validators: vals, ContractAddress: contract[:], TrustingPeriod: 1 << 40}
-			delay = bcs.GetDelayBlock()
+			delay = uint64(2*nVals/3 + 1) // the BSC rule, written here independently: floor(2n/3)+1 blocks on top of the proven one
 			cs = bcs
 			for i, h := range heights {
 				hh := clienttypes.NewHeight(0, h)
@@ -316,6 +327,19 @@ func c08Eth(rec *mon.Recorder, rng *rand.Rand, seed int64, nClaims int) {
 			case 8:
 				p.StorageProof = append(p.StorageProof, p.StorageProof[0])
 				variant, genuine = "two-storage-proofs", false
+			case 9:
+				// the same storage key spelled as another hex quantity (an extra leading zero byte, or leading zeros
+				// stripped as JSON-RPC quantities are): still the genuine proof of the same slot
+				lab := strings.TrimPrefix(p.StorageProof[0].Key, "0x")
+				if rng.Intn(2) == 0 || !strings.HasPrefix(lab, "00") {
+					p.StorageProof[0].Key = "0x00" + lab
+				} else {
+					p.StorageProof[0].Key = "0x" + strings.TrimLeft(lab, "0")
+					if len(p.StorageProof[0].Key)%2 == 1 {
+						p.StorageProof[0].Key = "0x0" + p.StorageProof[0].Key[2:]
+					}
+				}
+				variant = "key-spelled-as-other-hex-quantity"
 			}
 			proof := p.JSON()
 			if rng.Intn(40) == 0 {
